@@ -8,6 +8,14 @@ the code; `Aoe.Lemmas.Area` proves the code's predicates equivalent to it.
 -/
 namespace Aoe.Area
 
+/-- results of the model are comparable (for the `decide`d examples and witnesses) -/
+instance {α : Type} [DecidableEq α] : DecidableEq (Except Err α) := fun a b =>
+  match a, b with
+  | .ok x, .ok y => if h : x = y then isTrue (by rw [h]) else isFalse (fun e => by cases e; exact h rfl)
+  | .error x, .error y => if h : x = y then isTrue (by rw [h]) else isFalse (fun e => by cases e; exact h rfl)
+  | .ok _, .error _ => isFalse (fun e => by cases e)
+  | .error _, .ok _ => isFalse (fun e => by cases e)
+
 /-- the tile lies in the selection rectangle as given (raw corners, possibly outside the map) -/
 def InRect (a : Area) (t : Tile) : Prop := a.rx1 ≤ t.x ∧ t.x ≤ a.rx2 ∧ a.ry1 ≤ t.y ∧ t.y ≤ a.ry2
 
@@ -58,6 +66,9 @@ def InCorner (a : Area) (c : Int) (t : Tile) : Prop :=
 
 /-- the corner rectangles do not overlap: left/right ones are apart and upper/lower ones are apart -/
 def CornersDisjoint (a : Area) : Prop := 2 * a.cornerX ≤ a.width ∧ 2 * a.cornerY ≤ a.height
+
+instance (a : Area) : Decidable (CornersDisjoint a) := by
+  unfold CornersDisjoint; infer_instance
 
 /-- the pattern of the current state, before inversion, for a tile of the visible rectangle -/
 def Pattern (a : Area) (t : Tile) : Prop :=
